@@ -16,6 +16,8 @@ from core import enc_value, dec_value, outcome_of_value, outcome_of_exc
 from wbgen import a1, col_letters, sheet_ref
 
 NAME = 'execsim'
+# probes that count as injected disturbances (reported under faults_fired in the evidence)
+FAULT_PROBES = ('evaluation_failed_mid_history', 'get_sheet_aborted_by_failing_cell', 'clock_step')
 NEEDS_REF = True
 WB_PATH = '/simfs/w.xlsx'
 FROZEN_NS = 1_718_000_000 * 10**9   # 2024-06-10T06:13:20Z — the frozen instant of execsim runs
